@@ -427,6 +427,20 @@ impl BuilderArea {
                                     out.push((it.clone().count().to_string(), None, Some((it.clone().count(), it.clone().map(|_| 1).sum()))));
                                     break;
                                 }
+                                // consuming adaptors a caller may reach for: whatever they are built on must agree with `next`
+                                "last" => {
+                                    out.push(("last".into(), it.clone().last().map(|x| x.to_el()), None));
+                                    break;
+                                }
+                                "fold" => {
+                                    let mut v = vec![];
+                                    it.clone().for_each(|x| v.push(x.to_el()));
+                                    for el in v {
+                                        out.push(("next".into(), Some(el), None));
+                                    }
+                                    out.push(("next".into(), None, None));
+                                    break;
+                                }
                                 _ => out.push(("bad-op".into(), None, None)),
                             }
                         }
@@ -449,6 +463,20 @@ impl BuilderArea {
                                 }
                                 "count" => {
                                     out.push((it.clone().count().to_string(), None, Some((it.clone().count(), it.clone().map(|_| 1).sum()))));
+                                    break;
+                                }
+                                // consuming adaptors a caller may reach for: whatever they are built on must agree with `next`
+                                "last" => {
+                                    out.push(("last".into(), it.clone().last().map(|x| x.to_el()), None));
+                                    break;
+                                }
+                                "fold" => {
+                                    let mut v = vec![];
+                                    it.clone().for_each(|x| v.push(x.to_el()));
+                                    for el in v {
+                                        out.push(("next".into(), Some(el), None));
+                                    }
+                                    out.push(("next".into(), None, None));
                                     break;
                                 }
                                 _ => out.push(("bad-op".into(), None, None)),
@@ -489,6 +517,24 @@ impl BuilderArea {
                                                 cx.fail("C03", format!("child iterator of e{} ended after {} of {} items", id, consumed + skip, k.len()));
                                             }
                                             consumed = k.len();
+                                        }
+                                        out.push("none".into())
+                                    }
+                                }
+                            } else if s == "last" {
+                                let want = kids.as_ref().map(|k| if consumed < k.len() { k.last().cloned() } else { None });
+                                match el {
+                                    Some(el) => {
+                                        let wi = want.clone().flatten();
+                                        if want.is_some() && wi.is_none() {
+                                            cx.fail("C03", format!("last() of an exhausted child iterator of e{} yields an item", id));
+                                        }
+                                        out.push(self.show_el(t, &el, wi, cx, "child iterator last()"));
+                                        items.push(el);
+                                    }
+                                    None => {
+                                        if let Some(Some(_)) = want {
+                                            cx.fail("C03", format!("last() of a child iterator of e{} with items left yields none", id));
                                         }
                                         out.push("none".into())
                                     }
